@@ -87,6 +87,7 @@ type Hist struct {
 	inProbe bool
 	past    map[string][][]byte // earlier contents of each path (to return to an earlier state)
 	derived []Derived
+	world   []worldStep
 }
 
 var defaultComponents = []string{"a", "b", "d", "ad", "d-old", "lib", "lib.go", "lib-old", "lib0", "test", "test.c", "test-data",
@@ -179,6 +180,38 @@ func (h *Hist) pickBranch() (string, bool) {
 
 var branchNames = []string{"main", "dev", "de", "dev2", "feature", "a", "ab", "abc", "x-1", "v1.0", "b_2", "head", "m", "z", ".wip", ".x", "a.", "..."}
 
+// newBranchName: a name from the pool, or (one time in four) a name derived from an existing branch or a pool
+// name: the same letters in another case, or the name extended by the kind of suffix programs use for their
+// own temporary files (a branch is a file in refs/heads, so `x.lock`, `x~`, `x.tmp` are legal branch names)
+func (h *Hist) newBranchName() string {
+	r := h.r
+	n := r.pick(branchNames)
+	if !r.chance(1, 4) {
+		return n
+	}
+	if b, ok := h.pickBranch(); ok && r.chance(2, 3) {
+		n = b
+	}
+	sufs := []string{".lock", ".tmp", "~", ".orig", ".bak", "-tmp", ".new", ".old", "_", ".lock.lock"}
+	switch r.intn(6) {
+	case 0:
+		return strings.ToUpper(n)
+	case 1:
+		return strings.ToLower(n)
+	case 2:
+		if len(n) > 0 {
+			return strings.ToUpper(n[:1]) + n[1:]
+		}
+	case 3:
+		for _, s := range sufs {
+			if strings.HasSuffix(n, s) && len(n) > len(s) {
+				return strings.TrimSuffix(n, s)
+			}
+		}
+	}
+	return n + r.pick(sufs)
+}
+
 func (h *Hist) content() []byte {
 	switch h.r.intn(6) {
 	case 0:
@@ -253,6 +286,33 @@ func (h *Hist) W(op, path string, data []byte) {
 	h.stats["W."+op]++
 }
 
+// outsideSpellings: `add` arguments written as `$ROOT/p` (the absolute path of the working directory; the
+// placeholder keeps scripts replayable anywhere) or `../w/p` (through the parent directory; the working
+// directory of every history is called `w`) name the same files as `p`. The command is run with the
+// spelling as generated; the specifications and the models are given the equivalent plain spelling, i.e.
+// what a correct `add` does with it.
+func (h *Hist) outsideSpellings(args []string) (real, norm []string) {
+	if len(args) == 0 || args[0] != "add" {
+		return args, args
+	}
+	real, norm = append([]string{}, args...), append([]string{}, args...)
+	for i, a := range args[1:] {
+		for _, pre := range []string{"$ROOT", "../w"} {
+			if a == pre || strings.HasPrefix(a, pre+"/") {
+				rest := strings.TrimPrefix(strings.TrimPrefix(a, pre), "/")
+				if rest == "" {
+					rest = "."
+				}
+				norm[i+1] = rest
+				if pre == "$ROOT" {
+					real[i+1] = h.dir + strings.TrimPrefix(a, pre)
+				}
+			}
+		}
+	}
+	return real, norm
+}
+
 // respell: now and then an argument is given under a non-normalised spelling (`./p`, `p/`, `.//p`, `a/./b`)
 func (h *Hist) respell(args []string) {
 	for i, a := range args {
@@ -284,10 +344,13 @@ func argvLine(tz int, args []string) string {
 // X: one goit invocation
 func (h *Hist) X(tz int, args ...string) *Trans {
 	pre := h.obs
-	res := runGoit(h.ctx.Goit, h.dir, h.home, tz, args)
+	script := args
+	real, norm := h.outsideSpellings(args)
+	res := runGoit(h.ctx.Goit, h.dir, h.home, tz, real)
+	args = norm
 	post := observe(h.dir, h.home)
 	t := &Trans{Pre: pre, Post: post, Args: args, TZ: tz, Res: res, StepNo: len(h.lines), G: h.g}
-	h.lines = append(h.lines, argvLine(tz, args))
+	h.lines = append(h.lines, argvLine(tz, script))
 	h.outs = append(h.outs, res.Class)
 	h.stats["X."+args[0]+"."+res.Class]++
 	if res.Class == "error" && os.Getenv("VERIF_DEBUG") != "" {
@@ -314,6 +377,9 @@ func (h *Hist) X(tz int, args ...string) *Trans {
 			d.Step = t.StepNo
 			h.derived = append(h.derived, *d)
 		}
+	}
+	if !h.cfg.NoDerive {
+		h.world = append(h.world, worldStep{pre: pre, post: post, args: args, tz: tz, res: res, stepNo: t.StepNo})
 	}
 	if !h.cfg.NoDerive {
 		if d := deriveCmdLine(t); d != nil {
@@ -639,11 +705,11 @@ func (h *Hist) step() {
 			case y == 10:
 				// Goit's own files, in every spelling (`add` must skip them however they are named)
 				meta := r.pick([]string{".goit", ".goit/HEAD", ".goit/index", ".goit/config", ".goit/refs/heads/main", ".goit/objects", ".goit/logs/HEAD"})
-				args = append(args, r.pick([]string{meta, "./" + meta, meta + "/", "./" + meta + "/", h.comp() + "/../" + meta, ".//" + meta}))
+				args = append(args, r.pick([]string{meta, "./" + meta, meta + "/", "./" + meta + "/", h.comp() + "/../" + meta, ".//" + meta, "$ROOT/" + meta, "../w/" + meta}))
 			case y == 11:
 				// an existing file or directory under a non-normalised spelling
 				if f, ok := h.pickFile(); ok {
-					args = append(args, r.pick([]string{"./" + f, ".//" + f, "./" + f + "/", strings.Replace(f, "/", "//", 1), strings.Replace(f, "/", "/./", 1)}))
+					args = append(args, r.pick([]string{"./" + f, ".//" + f, "./" + f + "/", strings.Replace(f, "/", "//", 1), strings.Replace(f, "/", "/./", 1), "$ROOT/" + f, "../w/" + f}))
 				}
 			case y < 4:
 				if f, ok := h.pickFile(); ok {
@@ -654,7 +720,7 @@ func (h *Hist) step() {
 					args = append(args, r.pick([]string{d, d, d + "/", "./" + d}))
 				}
 			case y < 7:
-				args = append(args, r.pick([]string{".", ".", "./", "./."}))
+				args = append(args, r.pick([]string{".", ".", ".", "./", "./.", "$ROOT", "$ROOT/", "../w", "../w/."}))
 			case y < 9:
 				if t, ok := h.pickTracked(); ok {
 					args = append(args, t)
@@ -740,12 +806,12 @@ func (h *Hist) step() {
 		}
 		h.X(tz, "reset", r.pick([]string{"--soft", "--mixed"}), fmt.Sprintf("HEAD@{%d}", r.intn(3)))
 	case "branch":
-		n := r.pick(branchNames)
+		n := h.newBranchName()
 		h.X(tz, "branch", n)
 	case "branch-rename":
-		h.X(tz, "branch", "-r", r.pick(branchNames))
+		h.X(tz, "branch", "-r", h.newBranchName())
 	case "branch-delete":
-		n := r.pick(branchNames)
+		n := h.newBranchName()
 		if b, ok := h.pickBranch(); ok && r.chance(2, 3) {
 			n = b
 		}
@@ -753,13 +819,13 @@ func (h *Hist) step() {
 	case "branch-list":
 		h.X(tz, "branch", "--list")
 	case "switch":
-		n := r.pick(branchNames)
+		n := h.newBranchName()
 		if b, ok := h.pickBranch(); ok && r.chance(3, 4) {
 			n = b
 		}
 		h.X(tz, "switch", n)
 	case "switch-c":
-		h.X(tz, "switch", "-c", r.pick(branchNames))
+		h.X(tz, "switch", "-c", h.newBranchName())
 	case "reset":
 		if h.cfg.PreReset {
 			h.inProbe = true
@@ -808,7 +874,7 @@ func (h *Hist) step() {
 			}
 		}
 	case "update-ref":
-		b := r.pick(branchNames)
+		b := h.newBranchName()
 		if x, ok := h.pickBranch(); ok && r.chance(3, 4) {
 			b = x
 		}
@@ -1165,6 +1231,9 @@ func runHistCase(ctx *Ctx, cfg *HistCfg, r *rng, idx int) (Case, []string, []Fin
 	}
 	for i := range h.derived {
 		h.derived[i].Case = c
+	}
+	if len(h.world) > 0 && os.Getenv("VERIF_NO_WORLD") == "" {
+		c.World = buildWorldScript(h.world)
 	}
 	return c, h.outs, h.viols, h.stats, h.derived
 }
